@@ -126,6 +126,7 @@ type VSR struct {
 type VS struct {
 	Ns        string   `json:"ns"`
 	Name      string   `json:"name"`
+	Host      string   `json:"host,omitempty"` // default vs.example.com
 	TLS       *string  `json:"tls,omitempty"`
 	Policies  []PolRef `json:"policies,omitempty"`
 	Dos       string   `json:"dos,omitempty"`
@@ -235,6 +236,8 @@ type Obs struct {
 	Rev        []Rev             `json:"rev"`
 	Pols       []PolObs          `json:"pols"`
 	Events     []EvObs           `json:"events"`
+	Multi      []Obs             `json:"multi,omitempty"` // class multi: one entry per served resource
+	Kind       string            `json:"kind,omitempty"`  // class multi: ing | vs | ts
 	Panic      string            `json:"panic,omitempty"`
 	Error      string            `json:"error,omitempty"`
 }
@@ -513,6 +516,9 @@ func mkVS(v *VS) *conf_v1.VirtualServer {
 	vs := &conf_v1.VirtualServer{ObjectMeta: meta_v1.ObjectMeta{Namespace: v.Ns, Name: v.Name, Generation: 1, UID: "vs-uid"}}
 	vs.Spec.IngressClass = "nginx"
 	vs.Spec.Host = vsHost
+	if v.Host != "" {
+		vs.Spec.Host = v.Host
+	}
 	if v.TLS != nil {
 		vs.Spec.TLS = &conf_v1.TLS{Secret: *v.TLS}
 	}
@@ -527,6 +533,14 @@ func mkVS(v *VS) *conf_v1.VirtualServer {
 		vs.Spec.Routes = append(vs.Spec.Routes, mkRoute(r))
 	}
 	return vs
+}
+
+func mkVSRFor(v *VS, r VSR) *conf_v1.VirtualServerRoute {
+	o := mkVSR(r)
+	if v.Host != "" {
+		o.Spec.Host = v.Host
+	}
+	return o
 }
 
 func mkVSR(r VSR) *conf_v1.VirtualServerRoute {
@@ -889,6 +903,56 @@ func genMergeable(r *vh.Rng, e Env) (*Ing, []Ing) {
 	return m, mins
 }
 
+// genMulti: two or three served resources of different kinds, on different hosts, that share namespace and
+// name (control: distinct names); each references its own Secret / Service / Policy.
+func genMulti(r *vh.Rng, e Env, c *Case) {
+	ns := pick(r, nss)
+	shared := r.Chance(3, 4)
+	name := func(kind string) string {
+		if shared {
+			return "cafe"
+		}
+		return "cafe-" + kind
+	}
+	which := r.Intn(4) // 0: ing+vs, 1: ing+ts, 2: vs+ts, 3: all
+	if which != 2 {
+		c.Ing, _ = genIng(r, e)
+		c.Ing.Ns, c.Ing.Name = ns, name("ing")
+	}
+	if which != 1 {
+		c.VS = genVS(r, e)
+		for i := range c.VS.VSRs {
+			if c.VS.VSRs[i].Ns == c.VS.Ns {
+				c.VS.VSRs[i].Ns = ns
+			}
+		}
+		for i := range c.VS.Routes {
+			if c.VS.Routes[i].Route != "" {
+				c.VS.Routes[i].Route = c.VS.VSRs[routeIdx(c.VS, i)].Ns + "/" + c.VS.VSRs[routeIdx(c.VS, i)].Name
+			}
+		}
+		c.VS.Ns, c.VS.Name = ns, name("vs")
+		if r.Bool() {
+			c.VS.Host = "a-vs.example.com" // sorts before the Ingress hosts; the default sorts after them
+		}
+	}
+	if which != 0 {
+		c.TS = genTS(r, e)
+		c.TS.Ns, c.TS.Name = ns, name("ts")
+	}
+}
+
+// routeIdx: the index in v.VSRs of the VirtualServerRoute the i-th route of v delegates to
+func routeIdx(v *VS, i int) int {
+	n := 0
+	for k := 0; k < i; k++ {
+		if v.Routes[k].Route != "" {
+			n++
+		}
+	}
+	return n
+}
+
 func genCase(r *vh.Rng, id int, fix bool) Case {
 	e := Env{Fix: fix}
 	switch r.Intn(8) {
@@ -899,7 +963,10 @@ func genCase(r *vh.Rng, id int, fix bool) Case {
 		e.Plus, e.AP, e.Dos = true, r.Chance(4, 5), r.Chance(4, 5)
 	}
 	c := Case{Fam: "res", ID: id, Env: e, Cluster: genCluster(r, e)}
-	switch r.Intn(10) {
+	switch r.Intn(12) {
+	case 10, 11:
+		c.Class = "multi"
+		genMulti(r, e, &c)
 	case 0, 1, 2, 3:
 		c.Class, c.VS = "vs", genVS(r, e)
 	case 4, 5:
@@ -1172,50 +1239,69 @@ func runCase(c *Case) (obs Obs) {
 	c.Env.Fix = k8s.VerifC15ProbeVsrBackup()
 	w := build(c)
 	var probs []k8s.VerifC15Problem
-	var primary string
-	switch c.Class {
-	case "vs":
+	type target struct{ kind, key string }
+	var targets []target
+	if c.VS != nil {
 		probs = append(probs, w.v.AddVirtualServer(mkVS(c.VS))...)
 		for _, r := range c.VS.VSRs {
-			probs = append(probs, w.v.AddVirtualServerRoute(mkVSR(r))...)
+			probs = append(probs, w.v.AddVirtualServerRoute(mkVSRFor(c.VS, r))...)
 		}
-		primary = c.VS.Ns + "/" + c.VS.Name
-	case "ts":
+		targets = append(targets, target{"vs", "VirtualServer/" + c.VS.Ns + "/" + c.VS.Name})
+	}
+	if c.TS != nil {
 		gc := &conf_v1.GlobalConfiguration{ObjectMeta: meta_v1.ObjectMeta{Namespace: "nginx-ingress", Name: "gc"}}
 		gc.Spec.Listeners = []conf_v1.Listener{{Name: "tcp-1", Port: 5353, Protocol: "TCP"}}
 		probs = append(probs, w.v.AddGlobalConfiguration(gc)...)
 		probs = append(probs, w.v.AddTransportServer(mkTS(c.TS))...)
-		primary = c.TS.Ns + "/" + c.TS.Name
-	case "ing":
+		targets = append(targets, target{"ts", "TransportServer/" + c.TS.Ns + "/" + c.TS.Name})
+	}
+	if c.Ing != nil {
 		if c.Rival != nil {
 			probs = append(probs, w.v.AddIngress(mkIngress(c.Rival, 0))...)
 		}
-		probs = append(probs, w.v.AddIngress(mkIngress(c.Ing, 10))...)
-		primary = c.Ing.Ns + "/" + c.Ing.Name
-	case "merge":
-		probs = append(probs, w.v.AddIngress(mkIngress(c.Ing, 0))...)
+		kind, age := "ing", 10
+		if c.Class == "merge" {
+			kind, age = "merge", 0
+		}
+		probs = append(probs, w.v.AddIngress(mkIngress(c.Ing, age))...)
 		for k := range c.Minions {
 			probs = append(probs, w.v.AddIngress(mkIngress(&c.Minions[k], 10+k))...)
 		}
-		primary = c.Ing.Ns + "/" + c.Ing.Name
+		targets = append(targets, target{kind, "Ingress/" + c.Ing.Ns + "/" + c.Ing.Name})
 	}
-	var res *k8s.VerifC15Resource
-	for _, r := range w.v.Resources() {
-		r := r
-		if strings.HasSuffix(r.Key, "/"+primary) {
-			res = &r
-		}
+	reject := ""
+	for _, p := range probs {
+		reject += p.Reason + ": " + p.Msg + "; "
 	}
-	if res == nil {
-		obs.Served = false
-		for _, p := range probs {
-			obs.Reject += p.Reason + ": " + p.Msg + "; "
-		}
-		if len(obs.Reject) > 300 {
-			obs.Reject = obs.Reject[:300]
-		}
-		return obs
+	if len(reject) > 300 {
+		reject = reject[:300]
 	}
+	for _, t := range targets {
+		var res *k8s.VerifC15Resource
+		for _, r := range w.v.Resources() {
+			r := r
+			if r.Key == t.key {
+				res = &r
+			}
+		}
+		one := Obs{Kind: t.kind}
+		if res == nil {
+			one.Reject = reject
+		} else {
+			one = analyze(w, c, res, t.kind)
+			one.Kind = t.kind
+		}
+		if c.Class != "multi" {
+			return one
+		}
+		obs.Multi = append(obs.Multi, one)
+		obs.Served = obs.Served || one.Served
+	}
+	return obs
+}
+
+// analyze observes one served resource: forward dependencies, reverse look-ups, events.
+func analyze(w *world, c *Case, res *k8s.VerifC15Resource, kind string) (obs Obs) {
 	obs.Served = true
 	obs.Lookups, obs.Rev, obs.Pols = []Dep{}, []Rev{}, []PolObs{}
 	obs.ResKey = res.Key
@@ -1224,7 +1310,7 @@ func runCase(c *Case) (obs Obs) {
 	obs.MinionPath = res.MinionPath
 	obs.VsrKeys = res.VsrKeys
 
-	obs.Skel = skeleton(c, res)
+	obs.Skel = skeleton(c, res, kind)
 
 	// forward: the real createExtendedResources with recording stores
 	w.rec.seen = map[Dep]bool{}
@@ -1425,8 +1511,8 @@ func skPolicy(p *conf_v1.Policy) map[string]any {
 	return out
 }
 
-func skeleton(c *Case, res *k8s.VerifC15Resource) map[string]any {
-	switch c.Class {
+func skeleton(c *Case, res *k8s.VerifC15Resource, kind string) map[string]any {
+	switch kind {
 	case "vs":
 		vs := mkVS(c.VS)
 		var tls any
@@ -1437,7 +1523,7 @@ func skeleton(c *Case, res *k8s.VerifC15Resource) map[string]any {
 		for _, k := range res.VsrKeys { // the routes the Configuration attached, in its order
 			for _, r := range c.VS.VSRs {
 				if r.Ns+"/"+r.Name == k {
-					o := mkVSR(r)
+					o := mkVSRFor(c.VS, r)
 					vsrs = append(vsrs, map[string]any{"ns": o.Namespace, "subroutes": skRoutes(o.Spec.Subroutes), "upstreams": skUpstreams(o.Spec.Upstreams)})
 				}
 			}
@@ -1640,34 +1726,35 @@ func buildFull(c *Case) (*world, error) {
 		_ = store.Add(obj)
 		return deliver(kind, obj)
 	}
-	switch c.Class {
-	case "vs":
+	if c.VS != nil {
 		if err := add("vs", w.v.VS, mkVS(c.VS)); err != nil {
 			return nil, err
 		}
 		for _, r := range c.VS.VSRs {
-			if err := add("vsr", w.v.VSR, mkVSR(r)); err != nil {
+			if err := add("vsr", w.v.VSR, mkVSRFor(c.VS, r)); err != nil {
 				return nil, err
 			}
 		}
-	case "ts":
+	}
+	if c.TS != nil {
 		gc := &conf_v1.GlobalConfiguration{ObjectMeta: meta_v1.ObjectMeta{Namespace: "nginx-ingress", Name: "gc"}}
 		gc.Spec.Listeners = []conf_v1.Listener{{Name: "tcp-1", Port: 5353, Protocol: "TCP"}}
 		w.v.AddGlobalConfiguration(gc)
 		if err := add("ts", w.v.TS, mkTS(c.TS)); err != nil {
 			return nil, err
 		}
-	case "ing":
+	}
+	if c.Ing != nil {
 		if c.Rival != nil {
 			if err := add("ingress", w.v.Ingress, mkIngress(c.Rival, 0)); err != nil {
 				return nil, err
 			}
 		}
-		if err := add("ingress", w.v.Ingress, mkIngress(c.Ing, 10)); err != nil {
-			return nil, err
+		age := 10
+		if c.Class == "merge" {
+			age = 0
 		}
-	case "merge":
-		if err := add("ingress", w.v.Ingress, mkIngress(c.Ing, 0)); err != nil {
+		if err := add("ingress", w.v.Ingress, mkIngress(c.Ing, age)); err != nil {
 			return nil, err
 		}
 		for k := range c.Minions {
@@ -1838,6 +1925,21 @@ func tweakPolicy(p *conf_v1.Policy, g int) {
 // snapshot copies the files with their lines sorted: the order of some generated blocks (e.g. the maps of
 // several APIKey policies) follows Go map iteration and differs between two generations of the same input
 // (that is C09's subject, not C15's); a stale server, secret path or policy changes the multiset of lines.
+// configFile: the name under which the Configurator writes the resource ("Kind/ns/name" -> recMgr key)
+func configFile(resKey string) string {
+	parts := strings.SplitN(resKey, "/", 3)
+	if len(parts) != 3 {
+		return ""
+	}
+	switch parts[0] {
+	case "VirtualServer":
+		return "config:vs_" + parts[1] + "_" + parts[2]
+	case "TransportServer":
+		return "stream:ts_" + parts[1] + "_" + parts[2]
+	}
+	return "config:" + parts[1] + "-" + parts[2]
+}
+
 func findSvc(c *Case, key string) (SvcSpec, bool) {
 	for _, s := range c.Cluster.Services {
 		if s.Key == key {
@@ -1879,7 +1981,7 @@ func oneEvent(c *Case, resKey, kind, key, op string) (ev EvObs) {
 		ev.Err = "resource not served in the event-level controller"
 		return ev
 	}
-	primary := resKey[strings.LastIndex(resKey, "/")+1:]
+	file := configFile(resKey)
 	w.mgr.writes = nil
 	hop, old, cur, relevant := w.storeEvent(kind, key, op)
 	if hop == "" {
@@ -1901,7 +2003,7 @@ func oneEvent(c *Case, resKey, kind, key, op string) (ev EvObs) {
 	}
 	w.v.Drain()
 	for _, wr := range w.mgr.writes {
-		if (strings.HasPrefix(wr, "config:") || strings.HasPrefix(wr, "stream:")) && (strings.HasSuffix(wr, "_"+primary) || strings.HasSuffix(wr, "-"+primary)) {
+		if wr == file {
 			ev.Regen = true
 		}
 	}
